@@ -89,7 +89,9 @@ func C03(p *ir.Program, r *report.R) {
 				G{"address-matches-slot", "bytes.Equal(vote.ValidatorAddress," + val + "#0) || bytes.Equal(" + val + "#0,vote.ValidatorAddress)"},
 				G{"signature", "eq(types.Vote.Verify(vote,voteSet.chainID," + val + "#1.PubKey),nil)"},
 			)
-			r.Check("K1", name+"/admit/power", p.InstrPos(call), Arg(call, 3) == val+"#1.VotingPower", "power passed on is the slot validator's: "+Arg(call, 3))
+			// (the amount added to the tallies is checked below, across this call: whether the caller or the
+			// callee selects .VotingPower is an implementation detail)
+			r.Check("K1", name+"/admit/power", p.InstrPos(call), Arg(call, 3) == val+"#1.VotingPower" || Arg(call, 3) == val+"#1", "what is passed on for the power is the slot validator's: "+Arg(call, 3))
 			r.Check("K1", name+"/admit/vote", p.InstrPos(call), Arg(call, 1) == "vote" && Arg(call, 2) == "types.BlockID.Key(vote.BlockID)", "the verified vote and its own block key are passed on: "+Arg(call, 1)+","+Arg(call, 2))
 		}
 		// conflicting votes surface as ErrVoteConflictingVotes
@@ -124,7 +126,13 @@ func C03(p *ir.Program, r *report.R) {
 				continue
 			}
 			c.Guards(name, "sum+=", s.Instr, G{"first-vote-of-validator", "eq(voteSet.votes[vote.ValidatorIndex],nil)"})
-			r.Check("K1", name+"/sum+=/amount", p.InstrPos(s.Instr), ir.Render(s.Val) == "(voteSet.sum + votingPower)", "round total grows by the vote's power: "+ir.Render(s.Val))
+			amt := "?"
+			if bo, ok := s.Val.(*ssa.BinOp); ok && bo.Op == token.ADD && ir.Render(bo.X) == "voteSet.sum" {
+				for _, call := range ir.Calls(p.Func("types", "VoteSet.addVote"), "types.VoteSet.addVerifiedVote") {
+					amt = ir.RenderAt(call, bo.Y)
+				}
+			}
+			r.Check("K1", name+"/sum+=/amount", p.InstrPos(s.Instr), amt == "types.ValidatorSet.GetByIndex(voteSet.valSet,vote.ValidatorIndex)#1.VotingPower", "round total grows by the voting power of the slot validator (seen from addVote): sum + "+amt)
 		}
 		c.MustFind("K1", name+"/sum+=", fn, len(sumStores), "store to voteSet.sum")
 		for _, s := range c.WhoMayWrite("types", "VoteSet.maj23", name, "types.NewVoteSet") {
@@ -320,6 +328,32 @@ func C03(p *ir.Program, r *report.R) {
 			if s.Fn == rl {
 				c.Guards(csT+"reconstructLastCommit", "store LastCommit", s.Instr, G{"+2/3", "types.VoteSet.HasTwoThirdsMajority(*)"})
 			}
+		}
+		blockIDKeyLossless(c)
+		// the votes of a height are tallied over the validator set the round state holds: every
+		// cs.Votes = NewHeightVoteSet(.., V) is built over cs.Validators (or the value assigned to it in the
+		// same function) — in recover mode that is the recover set just installed, not the status' regular set
+		{
+			nV := 0
+			for _, s := range p.Stores(p.Field("consensus/types", "RoundState.Votes")) {
+				if strings.HasSuffix(p.Pos(s.Fn.Pos()), "_test.go") || s.Kind != "store" || ir.RelPkg(s.Fn.Pkg.Pkg) != "consensus" {
+					continue
+				}
+				call, ok := s.Val.(*ssa.Call)
+				if !ok || ir.CalleeName(call) != "types.NewHeightVoteSet" {
+					continue
+				}
+				nV++
+				arg := Arg(call, 2)
+				same := arg == "cs.RoundState.Validators"
+				for _, vs := range p.Stores(p.Field("consensus/types", "RoundState.Validators")) {
+					if vs.Fn == s.Fn && vs.Kind == "store" && ir.Render(vs.Val) == arg {
+						same = true
+					}
+				}
+				r.Check("K5", csT+ir.EnclosingTop(s.Fn).Name()+"/votes-over-round-validators", p.InstrPos(s.Instr), same, "the height vote set is built over the validator set of the round state: "+short(arg, 80))
+			}
+			r.Check("K5", "consensus/votes-over-round-validators/sites", "-", nV >= 3, fmt.Sprintf("%d constructions of cs.Votes (confirmed by hand: 3)", nV))
 		}
 		// updateToStatus moves the node to the next height. What it takes over from the finished height
 		// (the precommits that become LastCommit, the recover validator set that becomes LastValidators,
